@@ -133,7 +133,9 @@ def handle (st : St) (idx : Nat) (line : String) : St × String :=
     | "smclient" :: "dial" :: rest =>
       (st, emit idx impl (judgeDial dict ((kvNat rest "r").getD 0) ((kvNat rest "cfg").getD 0) ((kvNat rest "wf").getD 0)
         ((kv rest "beh").getD "-") ((kv rest "post").getD "-")
-        (((kv rest "la").getD "10.1.2.3").splitOn "." |>.map (fun t => t.toNat?.getD 0)) implToks))
+        (match kvNat rest "la6" with
+         | some k => [0x20, 0x01, 0x0d, 0xb8, 0, 0, 0, 0, 0, 0, 0, 0, 0, 0, 0, k]
+         | none => ((kv rest "la").getD "10.1.2.3").splitOn "." |>.map (fun t => t.toNat?.getD 0)) implToks))
     | "smclient" :: "wd" :: rest =>
       (st, emit idx impl (judgeWD dict ((kvNat rest "r").getD 0) ((kv rest "beh").getD "-") implToks))
     | "sctp" :: "demux" :: rest =>
